@@ -1,76 +1,231 @@
 (* Props/C18.v -- Creating a table is idempotent and race-safe.
    Statements only; proofs in Proofs/CreateProofs.v.
-   Any number of creators / openers, every interleaving of their steps (Probe, lock attempt, check
-   under the lock, v0 metadata write, pointer creation, release, adoption); storage with real mutual
-   exclusion: `sound c` = conditional pointer writes (any lock, even one granting everyone) or an
-   exclusive lock. *)
-From Coq Require Import List Bool Arith.
+   Any number of creators / openers, every interleaving of their steps (probe, lock attempt, check under the lock,
+   v0 metadata write, pointer creation, and -- when the store refuses the create-if-absent -- the second resolution
+   and the removal of the own v0, release, adoption); storage with real mutual exclusion: `sound c` = conditional
+   pointer writes (any lock, even one granting everyone) or an exclusive lock.  What a refused create-if-absent does
+   is not written down here: Model/Create.v reads it from Gen/GenCommit.v (gen_create_fail), regenerated from
+   MetadataManager.initialize_table on every run, and the theorems about the files a race leaves behind hold only
+   for the behaviour "remove the own v0 unless the table now in effect is this one".
+
+   NOT in the machine (implementation-only oracle of harness/props/c18.py instead): a creator that dies between its
+   steps; storage faults (lost responses, re-sent requests); the commits of a first appender. *)
+From Coq Require Import ZArith List Bool Arith.
+Require Import DS.Model.Value DS.Gen.GenSchema DS.Model.Schema DS.Model.CreateBase DS.Gen.GenCreateSchema DS.Model.CreateSchema DS.Proofs.CreateSchemaProofs.
 Require Import DS.Model.CommitBase DS.Gen.GenCommit DS.Model.Commit DS.Model.Create DS.Proofs.CommitProofs DS.Proofs.CreateProofs.
 Import ListNotations.
+Open Scope nat_scope.
 
-(* Starting from no table, exactly one initialisation takes effect: at most one pointer creation
-   ever succeeds. *)
+(* At most one pointer creation ever succeeds, at every moment of every run. *)
 Theorem C18_single_init : forall c evs, sound c -> (length (c_creates (crun c absent evs)) <= 1)%nat.
 Proof. exact single_init. Qed.
 Print Assumptions C18_single_init.
+
+(* EXACTLY one initialisation takes effect: once every caller has returned and anybody wrote metadata (or returned on
+   a table at all), exactly one pointer creation has succeeded, the pointer names that creator's metadata and that is
+   the table in effect. *)
+Theorem C18_exactly_one_init : forall c evs, sound c ->
+  let w := crun c absent evs in
+  settled w -> (c_files w <> [] \/ exists a u, c_pc w a = CDone (Some u)) ->
+  exists f u, c_creates w = [u] /\ c_ptr w = Some f /\ identity w f = Some u /\ table_id w = Some u.
+Proof. exact exactly_one_init. Qed.
+Print Assumptions C18_exactly_one_init.
 
 (* Once the pointer names a table, no creator or opener ever makes it name another one. *)
 Theorem C18_pointer_stable : forall c w evs f, sound c -> CInv c w -> c_ptr w = Some f -> c_ptr (crun c w evs) = Some f.
 Proof. exact pointer_stable. Qed.
 Print Assumptions C18_pointer_stable.
 
-(* An existing table -- pointer intact OR lost -- is never re-initialised: no metadata file is
-   written, no pointer is created, and every caller adopts the existing identity (hence its
-   persisted schema and committed data, which live in that metadata file). *)
-Theorem C18_existing_never_reinitialised : forall c owner lost evs,
-  let w := crun c (existing owner lost) evs in
-  c_files w = [owner] /\ c_ptr w = (if lost then None else Some 0) /\ c_creates w = []
-  /\ forall a u, c_pc w a = CDone u -> u = Some owner.
-Proof. exact existing_never_reinitialised. Qed.
+(* An existing table -- ANY state of storage whose metadata files on storage all carry one identity (any number of
+   versions, removed files, other callers' earlier results), pointer intact, lost or dangling, nobody inside a call --
+   is never re-initialised: no metadata file is written or removed, the pointer is not touched, no pointer is created,
+   and every caller that returns is on that identity (hence on its persisted schema and committed data, which live in
+   those metadata files).  Any storage configuration. *)
+Theorem C18_existing_never_reinitialised : forall c owner w0 evs,
+  one_identity owner (c_files w0) -> c_lock w0 = None -> settled w0 ->
+  let w := crun c w0 evs in
+  c_files w = c_files w0 /\ c_ptr w = c_ptr w0 /\ c_creates w = c_creates w0
+  /\ forall a u, c_pc w a = CDone u -> c_pc w0 a = CDone u \/ u = Some owner.
+Proof. exact existing_never_reinitialised_gen. Qed.
 Print Assumptions C18_existing_never_reinitialised.
 
-(* With the exclusive (local) lock every caller ends up on the same table. *)
-Theorem C18_same_table : forall c evs, sound c -> lockkind c = Excl ->
+(* ... in particular a table with metadata versions 0..n, pointer intact or lost. *)
+Theorem C18_existing_versions : forall c owner n lost evs,
+  let w := crun c (existing_n owner n lost) evs in
+  c_files w = chain owner n /\ c_ptr w = (if lost then None else Some n) /\ c_creates w = []
+  /\ forall a u, c_pc w a = CDone u -> u = Some owner.
+Proof. exact existing_never_reinitialised. Qed.
+Print Assumptions C18_existing_versions.
+
+(* What a creation race LEAVES BEHIND is such a table: once every caller has returned, the only metadata file on
+   storage is the one the pointer names (every loser removed its own v0), so recovery after a loss of the pointer
+   resolves the same file ... *)
+Theorem C18_race_leaves_one_table : forall c evs f, sound c ->
   let w := crun c absent evs in
-  forall a b u u', c_pc w a = CDone (Some u) -> c_pc w b = CDone (Some u') -> u = u'.
+  settled w -> c_ptr w = Some f ->
+  live w f = true /\ (forall g, live w g = true -> g = f)
+  /\ resolve (lose_ptr w) = Some f /\ table_id (lose_ptr w) = table_id w.
+Proof. exact race_leaves_one_table. Qed.
+Print Assumptions C18_race_leaves_one_table.
+
+(* ... and with the pointer then lost, every later creator / opener (any interleaving) leaves storage alone and ends
+   on the identity the pointer named. *)
+Theorem C18_race_then_pointer_loss : forall c evs1 evs2 f u, sound c ->
+  let w1 := crun c absent evs1 in
+  settled w1 -> c_ptr w1 = Some f -> identity w1 f = Some u ->
+  let w2 := crun c (lose_ptr w1) evs2 in
+  c_files w2 = c_files w1 /\ c_ptr w2 = None /\ c_creates w2 = c_creates w1
+  /\ forall a x, c_pc w2 a = CDone x -> c_pc w1 a = CDone x \/ x = Some u.
+Proof. exact race_then_pointer_loss. Qed.
+Print Assumptions C18_race_then_pointer_loss.
+
+(* Every caller ends up on the same table.
+   (a) From the moment the table is published, every call that returns is on it. *)
+Theorem C18_same_table_published : forall c w1 evs f u, sound c -> CInv c w1 -> c_ptr w1 = Some f -> identity w1 f = Some u ->
+  let w2 := crun c w1 evs in
+  table_id w2 = Some u /\ forall a x, c_pc w2 a = CDone x -> c_pc w1 a = CDone x \/ x = Some u.
+Proof. exact same_table_published. Qed.
+Print Assumptions C18_same_table_published.
+
+(* (b) PARTIAL (extra hypothesis: the lock is exclusive): also before publication every caller that has returned saw
+   the table now in effect. *)
+Theorem C18_same_table_partial : forall c evs, sound c -> lockkind c = Excl ->
+  let w := crun c absent evs in
+  forall a u, c_pc w a = CDone (Some u) -> table_id w = Some u.
 Proof. exact same_table_excl. Qed.
-Print Assumptions C18_same_table.
+Print Assumptions C18_same_table_partial.
+
+(* (c) The full statement -- any sound storage, the identity every call SAW WHEN IT RETURNED -- is false of the
+   machine (and of the code): with conditional writes and a lock that excludes nobody, an opener that returns while
+   two unpublished v0 files exist sees the newer one, which then loses.  A Table handle holds no identity (every
+   use resolves the table again), so that caller is on the winner's table from the publication on: (a). *)
+Definition C18_same_table_full : Prop := same_table_full.
+Theorem C18_same_table_full_refuted : ~ C18_same_table_full.
+Proof. exact same_table_full_refuted. Qed.
+Print Assumptions C18_same_table_full_refuted.
 
 (* The creation machine is the protocol the SOURCE performs: the events of one successful initialisation stand,
    action for action, for the skeleton the translator regenerates from MetadataManager.initialize_table on every run
    (lock; the already-initialised guard under the lock; stamp + v0 write; pointer creation -- create-if-absent where
    the store can --; release in the `finally`), and that script is enabled from the absent table for every storage
    configuration and yields exactly one initialisation.  Failure classes of the pointer creation, regenerated: a
-   refused create-if-absent is TableExists (the loser's v0 was never named); a failure that may have taken effect
-   (conditional-write storage, or storage whose failed writes are not guaranteed invisible) never removes the v0
-   the pointer may now name; only a guaranteed-invisible failure discards it. *)
+   refused create-if-absent is what the machine's `conflict_class` says -- TableExists after the own v0 was removed
+   unless the table now in effect is this one (_is_table_in_effect, pinned by the translator) --; a failure that may
+   have taken effect (conditional-write storage, or storage whose failed writes are not guaranteed invisible) never
+   removes the v0 the pointer may now name; only a guaranteed-invisible failure discards it. *)
 Theorem C18_skeleton_regenerated :
   create_model_path = gen_create_path_cas /\ create_model_path = gen_create_path_plain
-  /\ (forall atomic, gen_create_fail true atomic FEPrecondition = CFTableExists)
+  /\ (forall atomic, gen_create_fail true atomic FEPrecondition = conflict_class)
+  /\ conflict_class = CFTableExistsDiscardForeign
   /\ (forall casb atomic, (casb = true \/ atomic = false) -> gen_create_fail casb atomic FEError = CFKeepRaise)
   /\ gen_create_fail false true FEError = CFDiscardRaise
   /\ (forall c (a : aid),
-        let evs := {| ce_actor := a; ce_kind := CProbe false |}
-                   :: map (fun k => {| ce_actor := a; ce_kind := k |}) creator_events ++ [{| ce_actor := a; ce_kind := CAdopt |}] in
-        exists w', crun_strict c absent evs 0 = inl w' /\ c_creates w' = [a] /\ c_pc w' a = CDone (Some a)).
-Proof.
-  split; [reflexivity|]. split; [reflexivity|]. split; [intros []; reflexivity|]. split.
-  - intros casb atomic [H|H]; subst; [destruct atomic | destruct casb]; reflexivity.
-  - split; [reflexivity|]. intros [casb lk] a evs. subst evs. eexists.
-    destruct casb, lk; repeat (cbn; unfold updc, release, set; cbn; rewrite ?Nat.eqb_refl); (split; [reflexivity|]);
-      repeat (cbn; unfold updc; rewrite ?Nat.eqb_refl); split; reflexivity.
-Qed.
+        exists w', crun_strict c absent (solo_events a) 0 = inl w' /\ c_creates w' = [a] /\ c_pc w' a = CDone (Some a)
+                   /\ c_ptr w' = Some 0 /\ map f_id (c_files w') = [a]).
+Proof. exact skeleton_regenerated. Qed.
 Print Assumptions C18_skeleton_regenerated.
 
-(* Non-vacuity: CAS storage, a lock that grants everyone: creators 0 and 1 both probe "absent", both
-   write a v0 file; 1's create-if-absent wins, 0's fails (TableExists); both adopt table 1. *)
-Definition cev a k := {| ce_actor := a; ce_kind := k |}.
-Example C18_nonvacuous :
-  let c := {| cas := true; lockkind := GrantAll |} in
-  let evs := [cev 0 (CProbe false); cev 1 (CProbe false); cev 0 (CLockTry true); cev 1 (CLockTry true);
-              cev 0 (CCheck false); cev 1 (CCheck false); cev 0 CMetaW; cev 1 CMetaW;
-              cev 1 (CPtrCreate true); cev 0 (CPtrCreate false); cev 0 CRelease; cev 1 CRelease; cev 0 CAdopt; cev 1 CAdopt;
-              cev 2 (CProbe true)] in
+(* A schema supplied at creation is persisted and used by schema-less appends.  v0_schemas / table_schema /
+   gen_append_schema are the kernels regenerated from _initialize_table + TableMetadata.__post_init__,
+   _resolve_table_schema and append_data (Gen/GenCreateSchema.v); Schema.resolve is the append machine of C11. *)
+Theorem C18_schema_persisted_and_used : forall arg S, arg = Some S -> has_fields S = true ->
+  In S (fst (v0_schemas arg)) /\ snd (v0_schemas arg) = sid S
+  /\ table_schema arg = Some S
+  /\ gen_append_schema ischema (table_schema arg) None = Some S
+  /\ DS.Model.Schema.resolve (table_schema arg) None = inl S.
+Proof. exact schema_persisted_and_used. Qed.
+Print Assumptions C18_schema_persisted_and_used.
+
+(* Appends without any available schema (none given at creation, or one without fields, and none given to the
+   append) raise instead of writing empty rows: the regenerated append_data raises before its first statement that
+   puts anything on storage, and the append machine leaves the table exactly as it was. *)
+Theorem C18_no_schema_append_raises : forall arg, arg = None \/ (exists S, arg = Some S /\ has_fields S = false) ->
+  table_schema arg = None
+  /\ gen_append_schema ischema (table_schema arg) None = None
+  /\ DS.Model.Schema.resolve (table_schema arg) None = inr RejNoSchema
+  /\ (forall conv w e, DS.Model.Schema.w_schema w = table_schema arg -> DS.Model.Schema.e_arg e = None ->
+                       DS.Model.Schema.step conv w e = (w, RejNoSchema))
+  /\ In AARaiseNoSchema gen_append_order
+  /\ forallb (fun x => negb (writes_storage x)) (before AARaiseNoSchema gen_append_order) = true.
+Proof. exact no_schema_append_raises. Qed.
+Print Assumptions C18_no_schema_append_raises.
+
+(* ... and after a creation race it is the schema of the ONE initialisation that took effect (sarg u = what caller u
+   passed to create_table / Table), never a losing creator's. *)
+Theorem C18_schema_of_race : forall (sarg : aid -> option ischema) c evs, sound c ->
+  let w := crun c absent evs in
+  settled w -> c_files w <> [] ->
+  exists u, c_creates w = [u] /\ table_id w = Some u /\ persisted_schema sarg w = table_schema (sarg u)
+  /\ (forall S, sarg u = Some S -> has_fields S = true -> DS.Model.Schema.resolve (persisted_schema sarg w) None = inl S)
+  /\ (sarg u = None \/ (exists S, sarg u = Some S /\ has_fields S = false) ->
+      DS.Model.Schema.resolve (persisted_schema sarg w) None = inr RejNoSchema).
+Proof. exact schema_of_race. Qed.
+Print Assumptions C18_schema_of_race.
+
+(* ---------------------------------------------------------------------------------------------------- non-vacuity *)
+(* CAS storage, a lock that grants everyone: creators 0 and 1 both probe "absent", both write a v0 file (1's is the
+   newer); 0's create-if-absent wins, 1's is refused: 1 resolves again (the table in effect is 0's), removes its own
+   v0, raises TableExists; both adopt table 0; opener 2 arrives.  The run is accepted step by step, everybody has
+   returned (`settled`), one file is left. *)
+Definition race_cfg : cfg := {| cas := true; lockkind := GrantAll |}.
+Definition race_evs : list cevent :=
+  [cev 0 (CProbe false); cev 1 (CProbe false); cev 0 (CLockTry true); cev 1 (CLockTry true);
+   cev 0 (CCheck false); cev 1 (CCheck false); cev 0 CMetaW; cev 1 CMetaW;
+   cev 0 (CPtrCreate true); cev 1 (CPtrCreate false); cev 1 (CRecheck false); cev 1 CDiscard;
+   cev 0 CRelease; cev 1 CRelease; cev 0 CAdopt; cev 1 CAdopt; cev 2 (CProbe true)].
+
+Example C18_nonvacuous_race :
+  sound race_cfg
+  /\ crun_strict race_cfg absent race_evs 0 = inl (crun race_cfg absent race_evs)
+  /\ csummary (crun race_cfg absent race_evs) 3 = (Some 0, [0; 1], [0], [0], [2; 2; 2])
+  /\ settled (crun race_cfg absent race_evs)
+  /\ csummary (crun race_cfg (lose_ptr (crun race_cfg absent race_evs)) [cev 3 (CProbe true); cev 4 (CProbe true)]) 5
+     = (None, [0; 1], [0], [0], [2; 2; 2; 2; 2]).
+Proof.
+  split; [left; reflexivity|]. split; [vm_compute; reflexivity|]. split; [vm_compute; reflexivity|]. split.
+  - intros [|[|[|a]]]; vm_compute; reflexivity.
+  - vm_compute. reflexivity.
+Qed.
+
+(* the hypotheses of C18_same_table_published / C18_pointer_stable: a state reached mid-race (0 has published, 1 is
+   still about to try) satisfies the invariant with the pointer set *)
+Example C18_nonvacuous_published :
+  let w1 := crun race_cfg absent (firstn 9 race_evs) in
+  CInv race_cfg w1 /\ c_ptr w1 = Some 0 /\ identity w1 0 = Some 0 /\ c_pc w1 1 = CWritten 1.
+Proof.
+  cbv zeta. split; [apply crun_inv; [left; reflexivity | apply absent_inv] |]. vm_compute. repeat split; reflexivity.
+Qed.
+
+(* the hypotheses of C18_existing_never_reinitialised: a table with three metadata versions whose pointer is lost *)
+Example C18_nonvacuous_existing :
+  one_identity 7 (c_files (existing_n 7 2 true)) /\ settled (existing_n 7 2 true)
+  /\ csummary (crun race_cfg (existing_n 7 2 true) [cev 0 (CProbe true); cev 1 (CProbe false); cev 1 (CProbe true)]) 2
+     = (None, [7; 7; 7], [0; 1; 2], [], [9; 9]).
+Proof.
+  split; [apply chain_one_identity|]. split; [intro a; reflexivity|]. vm_compute. reflexivity.
+Qed.
+
+(* the exclusive lock (C18_same_table_partial): the second creator waits, finds the table, adopts it *)
+Example C18_nonvacuous_excl :
+  let c := {| cas := false; lockkind := Excl |} in
+  let evs := [cev 0 (CProbe false); cev 1 (CProbe false); cev 0 (CLockTry true); cev 1 (CLockTry false);
+              cev 0 (CCheck false); cev 0 CMetaW; cev 0 (CPtrCreate true); cev 0 CRelease; cev 1 (CLockTry true);
+              cev 1 (CCheck true); cev 1 CRelease; cev 1 CAdopt; cev 0 CAdopt] in
   crun_strict c absent evs 0 = inl (crun c absent evs)
-  /\ csummary (crun c absent evs) 3 = (Some 1, [0; 1], [1], [3; 3; 3]).
+  /\ csummary (crun c absent evs) 2 = (Some 0, [0], [0], [0], [2; 2]).
 Proof. vm_compute. split; reflexivity. Qed.
+
+(* schemas: creator 0 supplies {x: long}, creator 1 supplies {x: long, y: string}; 0 wins the race above, so a
+   schema-less append uses {x: long}; a table created without a schema (or with an empty one) has none *)
+Definition fx : field := {| fid := 1%Z; fname := 1%Z; ftype := T_long; fspell := 0%Z; freq := false |}.
+Definition fy : field := {| fid := 2%Z; fname := 2%Z; ftype := T_string; fspell := 0%Z; freq := false |}.
+Definition sA : ischema := {| sid := 1%Z; sfields := [fx]; sstring := 0%Z |}.
+Definition sB : ischema := {| sid := 1%Z; sfields := [fx; fy]; sstring := 0%Z |}.
+Example C18_nonvacuous_schema :
+  let sarg := fun a : aid => match a with O => Some sA | _ => Some sB end in
+  persisted_schema sarg (crun race_cfg absent race_evs) = Some sA
+  /\ DS.Model.Schema.resolve (persisted_schema sarg (crun race_cfg absent race_evs)) None = inl sA
+  /\ v0_schemas None = ([empty0], 0%Z) /\ table_schema None = None
+  /\ table_schema (Some {| sid := 5%Z; sfields := []; sstring := 0%Z |}) = None
+  /\ c_files (crun race_cfg absent race_evs) <> [].
+Proof. vm_compute. repeat split; try reflexivity. discriminate. Qed.
